@@ -8,6 +8,7 @@ package main
 // fields that G makes stable) see interference at every such access.
 
 import (
+	"sort"
 	"fmt"
 	"go/token"
 	"go/types"
@@ -290,6 +291,162 @@ func (x *Exec) interfere(st *State, m monObj, atLock bool) {
 		}
 	}
 	// axioms about package-level state are facts of every reachable state
+	x.entryAssumptions(st, nil)
+}
+
+// touchEmbeddedMonitors makes the protected fields of every monitor embedded (by value, at any depth)
+// in a struct type present in the state, so that every later interference step relates their new
+// values to the old ones by the guarantee (a field first touched after a havoc starts unrelated).
+func (x *Exec) touchEmbeddedMonitors(st *State, root string, t types.Type, depth int) {
+	stt, ok := t.Underlying().(*types.Struct)
+	if !ok || depth > 6 {
+		return
+	}
+	if mon := x.monitorOfType(t); mon != nil {
+		for _, f := range mon.Protects {
+			ft := x.fieldType(t, f)
+			if ft == nil {
+				continue
+			}
+			var ls []leaf
+			flatten(ft, "", &ls)
+			for _, l := range ls {
+				st.heapArr(root+"."+f+l.suffix, st.leafSort(l))
+			}
+		}
+	}
+	for i := 0; i < stt.NumFields(); i++ {
+		ft := stt.Field(i).Type()
+		if _, isStruct := ft.Underlying().(*types.Struct); isStruct {
+			x.touchEmbeddedMonitors(st, root+"."+stt.Field(i).Name(), ft, depth+1)
+		}
+	}
+}
+
+// interfereAll: a callee (and, while it runs, every other goroutine) may change the protected fields
+// of ANY monitor instance, not just of the objects passed to it: every protected field array that
+// this path has touched gets a new version, related to the old one, for every object, by the
+// monitor's guarantee and publication invariant. Instances whose lock this goroutine holds keep
+// their values unless the callee is entered with locks held (requires held(...)).
+func (x *Exec) interfereAll(st *State, calleeHoldsLocks bool, ground ...*Term) {
+	type inst struct {
+		root string
+		ty   types.Type
+		mon  *MonitorSpec
+	}
+	roots := map[string]inst{}
+	for k := range st.Heap {
+		base := k
+		if i := strings.Index(base, "#"); i >= 0 {
+			base = base[:i]
+		}
+		parts := strings.Split(base, ".")
+		for cut := len(parts) - 1; cut >= 2; cut-- {
+			root := strings.Join(parts[:cut], ".")
+			ty := x.rootType(root)
+			if ty == nil {
+				continue
+			}
+			if mon := x.monitorOfType(ty); mon != nil {
+				for _, f := range mon.Protects {
+					if f == parts[cut] {
+						roots[root] = inst{root, ty, mon}
+					}
+				}
+			}
+		}
+	}
+	if len(roots) == 0 {
+		return
+	}
+	before := st.snapshot()
+	ev := st.logHavoc(false, func(k string) bool { return x.keyIsProtected(k) }, nil)
+	var changed []string
+	for k, h := range st.Heap {
+		if ev.covers(k) {
+			st.Heap[k] = ev.version(k, h.Sort)
+			changed = append(changed, k)
+		}
+	}
+	sort.Strings(changed)
+	var names []string
+	for r := range roots {
+		names = append(names, r)
+	}
+	sort.Strings(names)
+	for _, r := range names {
+		in := roots[r]
+		// instances of this root whose lock this goroutine holds
+		var heldRefs []*Term
+		for hk := range st.Held {
+			if m, ok := st.monObjs[hk]; ok && (m.root == r || m.lockRoot != "" && strings.HasPrefix(m.lockRoot, r+".")) && m.ref != nil {
+				heldRefs = append(heldRefs, m.ref)
+			}
+		}
+		o := Fresh("q$o", SInt)
+		m := monObj{ref: o, root: r, ty: in.ty, mon: in.mon}
+		// evaluate on scratch copies: facts the evaluation records about the loaded values (type ranges)
+		// mention the bound object and belong inside the quantifier
+		cur, old := *st, *before
+		mark := st.Assumes
+		cur.Assumes, old.Assumes = mark, mark
+		env := x.monEnv(&cur, &old, m)
+		var body []*Term
+		for _, c := range in.mon.Guars {
+			body = append(body, x.evalBool(env, c.Expr))
+		}
+		for _, c := range in.mon.Pubs {
+			body = append(body, x.evalBool(env, c.Expr))
+		}
+		var side []*Term
+		for _, sc := range []*State{&cur, &old} {
+			for n := sc.Assumes; n != nil && n != mark; n = n.parent {
+				side = append(side, n.t)
+			}
+		}
+		body = append(side, body...) // type-range facts of the loaded values hold for every object
+		guard := TTrue
+		if !calleeHoldsLocks {
+			for _, hr := range heldRefs {
+				guard = And(guard, Neq(o, hr))
+				// the held instance is untouched
+				for _, k := range changed {
+					if keyUnder(k, r) {
+						st.Assume(Eq(Select(st.Heap[k], hr), Select(before.Heap[k], hr)))
+					}
+				}
+			}
+		}
+		if len(body) > 0 {
+			var pat []*Term
+			for _, k := range changed {
+				if keyUnder(k, r) {
+					pat = []*Term{Select(st.Heap[k], o)}
+					break
+				}
+			}
+			all := Implies(guard, And(body...))
+			st.Assume(Forall([]*Term{o}, all, pat))
+			// ground instances for the objects at hand (the call's pointer arguments and the monitor
+			// objects this path has locked): saves the solver the instantiation
+			seen := map[*Term]bool{}
+			inst := func(r *Term) {
+				if r == nil || seen[r] {
+					return
+				}
+				seen[r] = true
+				st.Assume(Subst(all, map[*Term]*Term{o: r}))
+			}
+			for _, g := range ground {
+				inst(g)
+			}
+			for _, mo := range st.monObjs {
+				if mo.root == r {
+					inst(mo.ref)
+				}
+			}
+		}
+	}
 	x.entryAssumptions(st, nil)
 }
 
